@@ -264,6 +264,65 @@ def mutation_driver(b, v, tier, seed):
     return total
 
 
+def hostile_names(b, v, tier):
+    """Field names, index-key names in the plan summary, namespace names and replacement texts are log content too: names made of
+    regular-expression metacharacters, printf verbs, quotes, control characters, very long names - under the flags that make the tool
+    look at names (--redactFieldNames, --redactNamespaces, --redactFieldsRegexp)."""
+    wd = tempfile.mkdtemp(prefix="c07names-", dir=b.root)
+    names = ["c++", "amount (usd", "*x", "a[b", "x|y", "p\\q", "^start", "end$", "q?", "{n}", "a{2,1}", "(?i)", "\\", "%s%d", "100%", "tab\there",
+             "new\nline", "quote\"d", "nul\u0000x", "uni\u2028sep", "é漢\U0001d4b3", "", " ", "a.b..c", "$", "$$", ".", "IXSCAN", "}", "{", ":", ",",
+             "x" * 300, "a" * 1500, "-1", "0", "__proto__", "constructor"]
+    lines = []
+    for i, nm in enumerate(names):
+        key = nm            # real characters (control characters, quotes, backslashes included); json.dumps escapes them in the line
+        ns = "dbZn.collZn" if i % 3 else "dbZn.coll" + (key[:20] if key.strip(".$ ") else "x")
+        plan_key = key.replace("}", "").replace("{", "")[:60]
+        filt = {key: "v%d" % i, "$expr": {"$eq": ["$" + key, 1]}, "sub": {key: [{key: i}]}}
+        for verb, cmd in (("find", {"find": "collZn", "filter": filt, "sort": {key: 1}, "$db": "dbZn"}),
+                          ("aggregate", {"aggregate": "collZn", "pipeline": [{"$match": {key: {"$in": ["a", key]}}}, {"$group": {"_id": "$" + key, key: {"$sum": 1}}},
+                                                                            {"$project": {key: 1}}, {"$sort": {key: -1}}, {"$lookup": {"from": key, "as": key, "localField": key, "foreignField": key}}],
+                                         "$db": "dbZn"})):
+            lines.append(json.dumps({"t": {"$date": "2025-01-01T00:00:00Z"}, "s": "I", "c": "COMMAND", "id": 500000 + len(lines), "ctx": "c", "msg": "Slow query",
+                                     "attr": {"ns": ns, "command": cmd, "planSummary": "IXSCAN { %s: 1, other: -1 }, IXSCAN { %s: \"2d\" }" % (plan_key.replace("\n", " "), plan_key.replace("\n", " "))}},
+                                    ensure_ascii=False, separators=(",", ":")))
+    data = ("\n".join(lines) + "\n").encode("utf-8")
+    inp = os.path.join(wd, "in.log")
+    open(inp, "wb").write(data)
+    flagsets = [[], ["-f", "dbZn.collZn"], ["-f", "dbZn"], ["-w"], ["-f", "dbZn.collZn", "-w", "-n", "-b"], ["-z", "c\\+\\+|\\(usd|^\\*"], ["-z", "."],
+                ["-r", "%s%d$1\\1"], ["-r", "a(b", "-f", "dbZn.collZn", "-w"], ["-f", "(?i)db", "-f", "dbZn.collZn"], ["-f", "dbZn.coll[", "-w"]]
+    n = 0
+    for fl in flagsets:
+        p = common.run_cli(b, ["redact", inp] + fl, cwd=wd)
+        n += 1
+        v.count(len(lines))
+        se = p.stderr.decode("utf-8", "replace")
+        rep = {"flags": fl, "exit": p.returncode, "stderr": se[-1500:]}
+        ok = p.returncode == 0 and not crash_signature(p.returncode, se)
+        whole, rest = sl.out_lines(p.stdout)
+        if ok and (rest or len(whole) != len(lines) or any(not sl.is_object_line(w.decode("utf-8", "replace")) for w in whole)):
+            ok = False
+        if ok:
+            continue
+        # localise the line
+        culprit = None
+        for ln in lines:
+            p2 = common.run_cli(b, ["redact"] + fl, stdin_data=(ln + "\n").encode("utf-8"), cwd=wd)
+            w2, r2 = sl.out_lines(p2.stdout)
+            if p2.returncode != 0 or r2 or len(w2) != 1 or not sl.is_object_line(w2[0].decode("utf-8", "replace")):
+                culprit = (ln, p2)
+                break
+        if culprit:
+            ln, p2 = culprit
+            se2 = p2.stderr.decode("utf-8", "replace")
+            v.violation("a line with an unusual field / index-key / namespace name %s flags=%s" % (
+                "crashes the run" if crash_signature(p2.returncode, se2) else "does not yield exactly one well-formed line", " ".join(fl)),
+                dict(rep, line=ln[:3000], exit_alone=p2.returncode, stderr_alone=se2[-800:], output_alone=p2.stdout.decode("utf-8", "replace")[:1500]))
+        else:
+            v.violation("a log with unusual names fails as a whole but every line passes alone flags=%s" % " ".join(fl), rep)
+    shutil.rmtree(wd, ignore_errors=True)
+    return n * len(lines)
+
+
 def nesting_and_limit(b, v, tier):
     """Measures the reader's limit and probes extreme nesting on both sides of it."""
     wd = tempfile.mkdtemp(prefix="c07nest-", dir=b.root)
@@ -378,9 +437,9 @@ def run(tier):
     # (2) walker level
     cs = l3_cfgs(tier)
     rp = l3.Replay(b, v, cs, "checks.c07:judge_l3", variants=1 if tier == "quick" else 2, drift=False)
-    shapes = '{"s","sa","os","aos","aas","aaos","oas","eo","ea","xdateS","xoidS","xbinB","xdateA","xdateO","xoidA","xoidO","xbinA","xbinO","xbinS","xbinSA"}'
+    shapes = '{"s","sa","os","aos","aas","aaos","oas","eo","ea","xdateS","xoidS","xbinB","xdateA","xdateO","xoidA","xoidO","xbinA","xbinO","xbinS","xbinSA","xdateNL"}'
     if tier == "quick":
-        shapes = '{"s","aos","aas","ea","xdateS","xoidS","xbinB","xdateA","xdateO","xoidA","xoidO","xbinA","xbinO","xbinS","xbinSA"}'
+        shapes = '{"s","aos","aas","ea","xdateS","xoidS","xbinB","xdateA","xdateO","xoidA","xoidO","xbinA","xbinO","xbinS","xbinSA","xdateNL"}'
     t2 = l3.generate("RedactorTW", "RedactorTW.cfg", cs, {"TWShapeKinds": shapes}, rp.sink, timeout=3000)
     t3 = l3.generate("RedactorEW", "RedactorEW.cfg", cs, {"EWDamaged": "TRUE"}, rp.sink, timeout=1500)
     for tt in (t2, t3):
@@ -391,11 +450,12 @@ def run(tier):
         v.violation("a line yields output that is not one well-formed JSON object line: %s" % s["why"], s)
     # (3) mutation + nesting
     nmut = mutation_driver(b, v, tier, v.seed)
+    nhostile = hostile_names(b, v, tier)
     limit, nprobes = nesting_and_limit(b, v, tier)
     v.cov.update({"states": t.distinct + t2.distinct + t3.distinct + tstates, "transitions": t.generated + t2.generated + t3.generated,
                   "traces_validated_against_impl": acc, "traces_rejected": len(rej), "exhaustive": tier == "thorough",
                   "stream_terminal_states_replayed": len(recs), "walker_cases": rp.records, "walker_flag_sets": [c.desc() for c in cs],
-                  "walker_crashed_lines": rp.crashes, "mutated_lines": nmut, "measured_reader_limit_bytes": limit, "nesting_probes": nprobes,
+                  "walker_crashed_lines": rp.crashes, "mutated_lines": nmut, "hostile_name_lines": nhostile, "measured_reader_limit_bytes": limit, "nesting_probes": nprobes,
                   "line_kinds": list(KINDS),
                   "rule": "(1) every sequence of <= 3 line kinds incl. over-long lines (quick: all of length <= 2 and 1500 of length 3) through the real CLI, "
                           "judged: no crash signature, exit 0 unless a line exceeds the limit (then exit != 0 with a message and the line neither passed through "
